@@ -46,7 +46,9 @@ SCOPES = {
   "subms": ({"regions": (0, 2), "ruby": False, "animation": False}, {"subms": True}),
 }
 
-PIECES = ["x", "y", "é", "xy", " ", " ", "  ", "&", "<", ">", "-", "--", "-->", "\n", "\n\n", "\t", "x-->y", "x<y", "&&", "<<", " \n ", "<x>", "x & y"]
+PIECES = ["x", "y", "é", "xy", " ", " ", "  ", "&", "<", ">", "-", "--", "-->", "\n", "\n\n", "\t", "x-->y", "x<y", "&&", "<<", " \n ", "<x>", "x & y",
+          "&lt;", "&amp;", "&#65;", "&#x41;", "&nbsp;", "&x;", "<00:00:01.000>"]      # text that spells a character reference or a timestamp tag
+# (text that spells <b>, </i> ... is not generated: SubRip has no escape mechanism, such text IS a tag there)
 DELTAS = [Fraction(1, 3000), Fraction(1, 2000), Fraction(1, 4000), Fraction(1, 1000), Fraction(3, 2000), Fraction(2, 3000), Fraction(1, 1250)]
 
 
@@ -166,7 +168,7 @@ def enrich(doc, r, opts):
                                                    sp.TextDecorationType(underline=False), sp.TextDecorationType(line_through=True),
                                                    sp.TextDecorationType(underline=True, line_through=True)]))
         if r.random() < 0.4:
-          e.set_style(SP.Color, r.choice([sp.NamedColors.red.value, sp.NamedColors.white.value, sp.NamedColors.lime.value,
+          e.set_style(SP.Color, r.choice([sp.NamedColors.red.value, sp.NamedColors.white.value, sp.ColorType((255, 255, 255, 255)), sp.NamedColors.lime.value,
                                           sp.ColorType((17, 34, 51, 255)), sp.ColorType((1, 2, 3, 128)), sp.NamedColors.black.value,
                                           sp.ColorType((10, 20, 30, 200))]))
         if r.random() < 0.35:
@@ -531,6 +533,14 @@ def style_diffs(fmt, exp_lines, act_lines):
       if want["color"] == WHITE:
         if got not in (None, WHITE):
           out.setdefault("color:extra", f"character {ch!r}: computed colour is the default (white), tags give {got}")
+        elif got == WHITE and all(c == WHITE for c in att.get("color_stack", ())[:-1]):
+          # the default colour may be tagged only where it has to override a colour tag around it; witness class: whether an
+          # ancestor of the text computes another colour (the writers tag every text node by its own computed colour, so no
+          # enclosing tag exists even then)
+          anc = any(n[0] != "Region" and n[3].get_style(SP.Color) is not None and rgba(n[3].get_style(SP.Color)) != WHITE for n in chain[:-1])
+          out.setdefault("color:default-tagged" + (":under-coloured-ancestor" if anc else ""),
+                         f"character {ch!r} of {''.join(c for c, _ in el)!r}: computed colour is the default (white) and "
+                         f"no enclosing tag sets another colour, yet a tag sets white")
       elif got != want["color"]:
         out.setdefault("color:missing" if got is None else "color:wrong", f"character {ch!r} of {''.join(c for c, _ in el)!r}: computed colour {want['color']}, tags give {got}")
       if fmt == "vtt":
